@@ -1,0 +1,13 @@
+//go:build verif
+
+package catalog
+
+import "os"
+
+// verifRecovered (build tag "verif"): with JSV_TRACE set, a recovered Go runtime
+// fault is re-raised so that the verification harness can read its stack.
+func verifRecovered(r interface{}) {
+	if _, isRuntime := r.(interface{ RuntimeError() }); isRuntime && os.Getenv("JSV_TRACE") != "" {
+		panic(r)
+	}
+}
